@@ -409,9 +409,10 @@ Proof.
   repeat total_step.
 Qed.
 
-(* so a call of a builtin needs exactly one unit of fuel, whatever the arguments *)
-Corollary call_builtin_value_total : forall n b pos named s, call (S n) (VBuiltin b) pos named s <> OutOfFuel.
-Proof. intros. cbn [call]. apply builtin_total. Qed.
+(* so a call of a builtin without keyword arguments needs exactly one unit of fuel, whatever the arguments
+   (sorted(xs, key=f) calls f and so needs the fuel of those calls) *)
+Corollary call_builtin_value_total : forall n b pos s, call (S n) (VBuiltin b) pos [] s <> OutOfFuel.
+Proof. intros. cbn [call]. rewrite andb_false_r. apply builtin_total. Qed.
 
 (* ---- exact rejection conditions ------------------------------------------------------------------------ *)
 Definition measurable (s : state) (a : value) : Prop :=
@@ -517,12 +518,13 @@ Proof.
 Qed.
 
 (* ---- every failure of a statement / program is located ------------------------------------------------- *)
-(* FULL statement (kept visible; not proved in this round):
+(* FULL statement:
      forall fuel prog tr e l, run_program fuel prog = (tr, Failed e l) ->
        exists ln, l = Some ln /\ In ln (all nested statement lines of prog)
-   It needs the invariant "every closure in the store has a body whose lines are lines of prog" carried through
-   eval/call/exec.  Proved here: the failure always carries a line (at_line attaches the line of the innermost
-   statement; nothing ever removes it), and for a failure raised directly by a statement's own expression
+   It is proved in EvalState/Lines.v (`run_program_error_has_line`, `run_program_error_line_in`) with the invariant
+   "every closure in the store has a body whose lines are lines of prog" carried through eval/call/exec.
+   Kept here: the weaker facts that the failure always carries a line (at_line attaches the line of the innermost
+   statement; nothing ever removes it), and that for a failure raised directly by a statement's own expression
    evaluation - with no line attached yet - the line is that statement's. *)
 Lemma at_line_some {A} ln (m : M A) s e l s' : at_line ln m s = Fail e l s' -> exists k, l = Some k.
 Proof.
